@@ -54,3 +54,17 @@ PROPS["C20"] = {
         "note": "Trusted: Coq kernel, translator, extraction+driver, harness; the assembly build is covered by correspondence only (exhaustive over lengths 0..72 x positions x 12 values x 8 alignments).",
     },
 }
+
+PROTO_TB = COMMON_TB + ["Proto/Model.v: hand-written model of the reflection-driven codecs (struct.go, slice.go, map.go, pointer.go, bytes.go, scalar codecs, message.go) over type descriptors and values; tied to the code by correspondence on generated types built with reflect.StructOf; the wire primitives are machine-translated (Generated/ProtoGen.v)",
+                        "Go memory layout (inlined pointer-shaped structs, unsafe field offsets, runtime map iteration and slice growth) is abstracted to values: not modelled"]
+
+PROPS["C03"] = {
+    "harness": "c03",
+    "models": ["Proto/Model.v", "Generated/ProtoGen.v"],
+    "rule": "hand-picked shapes + seeded random struct types (1-40 fields, nesting <= 3, tags with numbers up to 2047, zigzag/fixed/rep options, pointers, byte arrays, repeated fields, maps, RawMessage) x "
+            "zero value + boundary-biased values (integer width edges, +-0/NaN/Inf bits, nil vs empty, repeated 0..40 and 500 elements, map entries of 118..132 bytes); "
+            "p.rt: Unmarshal(Marshal(v)) canonicalised (nil-vs-empty erased, map entries sorted) vs v; p.enc: Size and Marshal bytes vs model, Size==len(Marshal) and no error vs property",
+    "nontrivial": nontrivial_default,
+    "trusted_base": PROTO_TB,
+    "assumptions": ["universe: finite (non-recursive) struct types; field numbers unique within a struct; no nil pointers as slice elements / map values and no non-nil pointer to a nil pointer (protobuf has no representation for them); RawMessage contents are well-formed fields"],
+}
